@@ -13,6 +13,7 @@ import time
 
 import clilib
 import c17lib as L
+import cfgmodel as M
 import svlib
 
 META = {
@@ -369,6 +370,15 @@ def placements():
     P.append(("cfg:above-cwd-with-search-parents+filepath", {"stylua.toml": toml_for(sp(7)), "proj/src/x.lua": "return 1\n"}, ["-s", "--stdin-filepath", "a.lua"], sp(7), "proj/src"))
     P.append(("cfg:above-cwd-without-search-parents", {"stylua.toml": toml_for(sp(7)), "proj/src/x.lua": "return 1\n"}, [], {}, "proj/src"))
     P.append(("cfg:above-cwd-nearest-wins", {"stylua.toml": toml_for(sp(7)), "proj/.stylua.toml": toml_for(sp(2)), "proj/src/x.lua": "return 1\n"}, ["-s"], sp(2), "proj/src"))
+    # .editorconfig is the source when no stylua.toml is found - for plain stdin too; command-line options
+    # win over it whichever way the text comes in
+    ec_props = {"indent_style": "space", "indent_size": "2", "quote_type": "single", "max_line_length": "70"}
+    ec_text = "root = true\n\n[*.lua]\n" + "".join(f"{k} = {v}\n" for k, v in ec_props.items())
+    ec_cfg_full, ec_touched = M.apply_editorconfig(clilib.cfg(), ec_props)
+    ec_cfg = {k: ec_cfg_full[k] for k in ec_touched}
+    P.append(("cfg:editorconfig-cwd", {".editorconfig": ec_text}, [], ec_cfg))
+    P.append(("cfg:editorconfig-cwd+filepath", {".editorconfig": ec_text}, ["--stdin-filepath", "src/a.lua"], ec_cfg))
+    P.append(("cfg:editorconfig-disabled", {".editorconfig": ec_text}, ["--no-editorconfig"], {}))
     P.append(("cfg:other-keys", {"stylua.toml": 'column_width = 50\nquote_style = "ForceSingle"\ncall_parentheses = "None"\n'}, [],
               {"column_width": 50, "quote_style": "ForceSingle", "call_parentheses": "None"}))
     return P
@@ -454,6 +464,9 @@ def build_workload(tier, seed, ref):
         for n, b in grid_inputs[:: (3 if quick else 1)]:
             cases.append(mk(fam, b, tree=tree, args=args, tree_cfg=tcfg, src=n, **extra))
             cases.append(mk(fam + "+cli-width", b, tree=tree, args=args, tree_cfg=tcfg, cfg={"indent_width": 2}, src=n, **extra))
+            # command-line options that overlap what the configuration source sets
+            cases.append(mk(fam + "+cli-overlap", b, tree=tree, args=args, tree_cfg=tcfg,
+                            cfg={"indent_type": "Tabs", "quote_style": "ForceDouble", "column_width": 77}, src=n, **extra))
         cases.append(mk(fam + ":check", grid_inputs[-2][1], tree=tree, args=args, tree_cfg=tcfg, mode="check:unified", **extra))
     # ---- pinned E: ignored paths
     itree, icases = ignore_cases()
